@@ -1481,7 +1481,11 @@ class Node:
         answer.acct_application_id = list(self.acct_application_ids)
 
         # a name that is not even valid text cannot be one of our peers
-        cer_origin_host = message.origin_host.lower().decode(errors="replace")
+        # (and a CER that names nobody - possible when validation of received
+        # requests is switched off - comes from nobody we know)
+        cer_origin_host = ""
+        if isinstance(message.origin_host, bytes):
+            cer_origin_host = message.origin_host.lower().decode(errors="replace")
 
         if cer_origin_host not in self.peers:
             self.logger.warning(
